@@ -5,6 +5,9 @@ From Eino Require Import Base.Util Model.ConcatTable Model.Concat Model.ConcatMs
 From Eino Require Import Proofs.Concat Proofs.ConcatRechunk Proofs.ConcatMsg Proofs.ConcatOrder.
 From Coq Require Import Sorting.Permutation Sorting.Sorted.
 
+Section User.
+Context {U : UserFn} {L : UserLaw}.
+
 (* ------------------------------------------------------------------ the stable sort *)
 
 Lemma sinsert_nil_front x l : tc_idx x = None -> sinsert x l = x :: l.
@@ -223,3 +226,5 @@ Proof.
     cbn [rrel] in HE; try contradiction; cbn [res_bind rrel]; try exact I.
   unfold msg_same. cbn. repeat split; try reflexivity. exact HE.
 Qed.
+
+End User.
